@@ -47,26 +47,50 @@ func checkSelect(w world.World) error {
 	failedAt := -1
 	ascending := true
 	for i, c := range w.Script {
-		rs, err := sourceaddrs.ParseRegistrySource(c.Addr)
-		if err != nil {
-			return fmt.Errorf("harness: %v", err)
+		// the registry requests this call makes: its own, or - for a remote
+		// package - those its root module reports as dependencies in one go
+		reqs := []world.AddCall{c}
+		if c.Kind == "remote" {
+			reqs = nil
+			for _, p := range w.Remotes {
+				if p.Addr != c.Addr {
+					continue
+				}
+				for _, d := range p.Modules[0].Deps["0"] {
+					reqs = append(reqs, world.AddCall{Kind: "registry", Addr: d.Addr, Allowed: d.Allowed})
+				}
+			}
 		}
-		rp := regOf(w, rs.Package().String())
-		allowedText := c.Allowed
-		if c.Kind == "final" {
-			allowedText = c.Version
-		}
-		set, err := world.AllowedSet(allowedText)
-		if err != nil {
-			return fmt.Errorf("harness: bad constraint %q", allowedText)
-		}
-		maxima, ok := world.Select(*rp, set)
-		wants = append(wants, want{c, maxima, ok})
-		for j := 1; j < len(rp.Versions); j++ {
-			a, _ := versions.ParseVersion(rp.Versions[j-1].V)
-			b, _ := versions.ParseVersion(rp.Versions[j].V)
-			if world.Less(b, a) {
-				ascending = false
+		allOK := true
+		var firstBad string
+		for _, rq := range reqs {
+			rs, err := sourceaddrs.ParseRegistrySource(rq.Addr)
+			if err != nil {
+				return fmt.Errorf("harness: %v", err)
+			}
+			rp := regOf(w, rs.Package().String())
+			allowedText := rq.Allowed
+			if rq.Kind == "final" {
+				allowedText = rq.Version
+			}
+			set, err := world.AllowedSet(allowedText)
+			if err != nil {
+				return fmt.Errorf("harness: bad constraint %q", allowedText)
+			}
+			maxima, ok := world.Select(*rp, set)
+			if !ok && allOK {
+				allOK = false
+				firstBad = fmt.Sprintf("no offered version of %s is allowed by %q", rp.Addr, allowedText)
+			}
+			if failedAt < 0 {
+				wants = append(wants, want{rq, maxima, ok})
+			}
+			for j := 1; j < len(rp.Versions); j++ {
+				a, _ := versions.ParseVersion(rp.Versions[j-1].V)
+				b, _ := versions.ParseVersion(rp.Versions[j].V)
+				if world.Less(b, a) {
+					ascending = false
+				}
 			}
 		}
 		res := run.DoCall(ctx, c)
@@ -80,9 +104,9 @@ func checkSelect(w world.World) error {
 		if res.Panicked != nil {
 			return fmt.Errorf("call %d (%+v) panicked: %v", i, c, res.Panicked)
 		}
-		if !ok {
+		if !allOK {
 			if !res.Diags.HasErrors() {
-				return fmt.Errorf("no offered version of %s is allowed by %q, but the call reported no error", rp.Addr, allowedText)
+				return fmt.Errorf("%s (requests of call %d: %+v), but the call reported no error", firstBad, i, reqs)
 			}
 			failedAt = i
 			continue
@@ -92,7 +116,10 @@ func checkSelect(w world.World) error {
 			for _, d := range res.Diags {
 				msgs = append(msgs, world.DiagString(d))
 			}
-			return fmt.Errorf("versions %v of %s are offered and allowed by %q, but the call failed: %s", vnames(maxima), rp.Addr, allowedText, strings.Join(msgs, " || "))
+			return fmt.Errorf("every request of call %d (%+v) has an offered and allowed version, but the call failed: %s", i, reqs, strings.Join(msgs, " || "))
+		}
+		if len(reqs) > 1 {
+			ev.Label("several-requests-one-analysis")
 		}
 	}
 	// classification
@@ -260,6 +287,32 @@ func genWorld(t *rapid.T) world.World {
 	ncalls := rapid.IntRange(1, 4).Draw(t, "ncalls")
 	for i := 0; i < ncalls; i++ {
 		rp := w.Registry[rapid.IntRange(0, nreg-1).Draw(t, "which")]
+		if rapid.IntRange(0, 3).Draw(t, "viadeps?") == 0 {
+			// a package whose root module asks for registry modules itself, several at once,
+			// often the same source under different constraints
+			root := world.RemotePkg{Addr: fmt.Sprintf("https://example.com/root%d.tgz", i), Content: fmt.Sprintf("root%d", i),
+				Modules: []world.Module{{Sub: "", Deps: map[string][]world.Dep{}}}}
+			nd := rapid.IntRange(1, 4).Draw(t, "ndeps")
+			sub := rapid.SampledFrom([]string{"", "modules/a", "x"}).Draw(t, "depsub")
+			for j := 0; j < nd; j++ {
+				drp := rp
+				if rapid.IntRange(0, 3).Draw(t, "otherreg?") == 0 {
+					drp = w.Registry[rapid.IntRange(0, nreg-1).Draw(t, "depwhich")]
+				}
+				if rapid.IntRange(0, 2).Draw(t, "othersub?") == 0 {
+					sub = rapid.SampledFrom([]string{"", "modules/a", "x"}).Draw(t, "depsub2")
+				}
+				addr := drp.Addr
+				if sub != "" {
+					addr += "//" + sub
+				}
+				root.Modules[0].Deps["0"] = append(root.Modules[0].Deps["0"], world.Dep{Kind: "registry", Addr: addr,
+					Allowed: rapid.SampledFrom(constraintPool).Draw(t, "depallowed")})
+			}
+			w.Remotes = append(w.Remotes, root)
+			w.Script = append(w.Script, world.AddCall{Kind: "remote", Addr: root.Addr})
+			continue
+		}
 		c := world.AddCall{Kind: "registry", Addr: rp.Addr}
 		if s := rapid.SampledFrom([]string{"", "", "modules/a", "x"}).Draw(t, "sub"); s != "" {
 			c.Addr += "//" + s
